@@ -309,6 +309,16 @@ def check_crossable(prog, rep, m, f):
            f.params[1] in repr(a.args[0])]
     rest = [a for a in atoms if a not in nan + bar + [v] and not (isinstance(a, Sym) and '@' in a.name)
             and not (isinstance(a, Sym) and a.name in f.params)]
+    # arithmetic on the two compared values alone (`abs(value - barrier)`) is evaluated with them
+    rest = [a for a in rest if not (isinstance(a, App) and a.name == 'abs' and len(bar) == 1 and
+                                    all(x in (v, bar[0]) or (isinstance(x, Sym) and ('@' in x.name or x.name in f.params)) for r_ in a.args if isinstance(r_, Rat)
+                                        for x in walk_atoms(r_) if x is not a))]
+    tolerant = [a for a in rest if isinstance(a, App) and a.name.split('.')[-1] in ('isclose', 'allclose')]
+    if tolerant:
+        rep.add('A5', f, ENTRY, '%s: NaN or any barrier value' % f.name, f.node.lineno, False,
+                'a cell is a barrier exactly when it EQUALS a barrier value: %s accepts every value within a tolerance, so crossable '
+                'cells next to a barrier value (large ids, elevations) become walls' % show(tolerant, 80))
+        return
     if len(nan) != 1 or len(bar) != 1 or rest:
         rep.add('A5', f, ENTRY, '%s: NaN or any barrier value' % f.name, f.node.lineno, None if rest else False,
                 'the crossable test must look at isnan(value) and value == barrier only (NaN tests %d, barrier reads %d, other %s)' % (
@@ -322,7 +332,8 @@ def check_crossable(prog, rep, m, f):
     try:
         for title, isn, val, b, want in (('NaN', 1, 5, 7, True), ('NaN equal to nothing', 1, 5, 5, True),
                                          ('value equals the barrier', 0, 5, 5, True), ('value differs', 0, 5, 7, False),
-                                         ('value differs (barrier smaller)', 0, 5, 3, False)):
+                                         ('value differs (barrier smaller)', 0, 5, 3, False),
+                                         ('value next to the barrier', 0, 5, Fraction(5) + Fraction(1, 10 ** 40), False)):
             r = first_return(k, {nan[0]: F(isn), v: F(val), bar[0]: F(b)})
             got = r[1] if isinstance(r, tuple) and r[0] == 'const' else None
             res.append((title, got, want))
